@@ -1,5 +1,6 @@
 import QuantemModel.Core.Proto
 import QuantemModel.Model.SaveFs
+import QuantemModel.Model.SaveFront
 import QuantemModel.Model.SerializeTrace
 import QuantemModel.Core.SerializeJson
 open Lean QuantemModel QuantemModel.Proto QuantemModel.SaveFs
@@ -44,6 +45,15 @@ def step (st : Unit) (j : Json) : Unit × Json :=
       let nm : QuantemModel.Serialize.W → String
         | .group => "group" | .attr => "attr" | .array => "array" | .bytes => "bytes"
       pure (okJson (Json.arr (tr.map fun w => Json.str (nm w)).toArray))
+    else if op == "front" then
+      -- the front end of save(): validation, store inference, suffix, existence check (Model/SaveFront.lean)
+      let existing ← (← arrField j "exists").toList.mapM fun e => do pure (← e.getStr?).toList
+      let level : Option Int := (intField j "level").toOption
+      let r := QuantemModel.SaveFront.front (← strField j "path").toList (← strField j "mode") (← strField j "store") level
+        (fun p => existing.contains p)
+      match r with
+      | .error e => pure (okJson (Json.mkObj [("raises", Json.str e.pyName), ("branch", Json.str (reprStr e))]))
+      | .ok res => pure (okJson (Json.mkObj [("target", Json.str (String.ofList res.target)), ("zip", Json.bool res.zip)]))
     else
     let c : Cfg := { target := (← strField j "target"), staged := (← strField j "staged"), id := (← natField j "id") }
     let fs ← fsOfJson (← field j "fs")
@@ -68,7 +78,8 @@ def step (st : Unit) (j : Json) : Unit × Json :=
         let calls ← (← arrField j "calls").toList.mapM fun cj => do
           let k : Call := {
             cfg := { target := c.target, staged := (← strField cj "staged"), id := (← natField cj "id") },
-            modeO := (← boolField cj "modeO"), levelOk := true, dirHasExt := false, zip := (← boolField cj "zip"),
+            modeO := (← boolField cj "modeO"), levelOk := ((boolField cj "levelOk").toOption.getD true),
+            dirHasExt := ((boolField cj "dirHasExt").toOption.getD false), zip := (← boolField cj "zip"),
             nTmp := (← natField cj "nTmp"), nWrites := (← natField cj "nWrites"),
             fault := (match cj.getObjVal? "fault" with | .ok f => f.getNat?.toOption | .error _ => .none) }
           pure k
